@@ -144,3 +144,23 @@ func WorkerMain(args []string) int {
 	send(Message{Done: true})
 	return 0
 }
+
+// CaseMain runs one case in this process and prints its result as indented JSON.
+func CaseMain(args []string) int {
+	if len(args) < 4 {
+		fmt.Fprintln(os.Stderr, "usage: vcheck case <prop> <tier> <seed> <idx>")
+		return 2
+	}
+	p := core.Lookup(args[0])
+	if p == nil {
+		return 2
+	}
+	seed, _ := strconv.ParseInt(args[2], 10, 64)
+	idx, _ := strconv.Atoi(args[3])
+	ctx := core.NewCtx(p.ID(), args[1], seed, idx)
+	ctx.Guard("case", func() { p.Run(ctx, idx) })
+	b, _ := json.MarshalIndent(ctx.R, "", " ")
+	os.Stdout.Write(b)
+	fmt.Println()
+	return 0
+}
